@@ -69,6 +69,8 @@ def fidelity_selftest(seed, n=300):
         case = S.gen_workload(_c.rng_for(seed, 'C04-realcrash', i), faults=False)
         if (case.get('buffering') == 1 and not case.get('text_mode')) or S.body_raises(case):
             continue
+        if 'symlink' in (case.get('dest_initial') or {}):
+            continue                # the forked enumeration sets up regular files only
         case.pop('reuse', None)
         case.pop('env', None)
         t, problems = S.real_crash_enumeration(case)
